@@ -1,20 +1,21 @@
-(* sjdriver: reads the cases written by sjharness (with the implementation's
-   observed results), runs the extracted Coq model on the same inputs and
-   reports every disagreement of projected observables.
+(* sjdriver: reads the cases written by sjharness (inputs + the implementation's
+   observed results), runs the extracted Coq model and specification on the same
+   inputs and reports
 
-     sjdriver CASES.sexp > report.txt
+     TIE   — model (model/Exec.v) and implementation disagree on a projected observable
+     POLLS — they disagree on the number of polls of ctx.Done()
+     SPEC  — implementation and specification (spec/Sem.v + spec/Proj.v) disagree;
+             class=<known-finding class> when one of the recorded deviations explains it
+     PROP  — a relation a property states directly on the implementation's outputs fails
+     IMPURE, SKIP, STAT, SUMMARY
 
-   Output lines:
-     TIE <id> <family> <entry> silent=<b> k=<k> impl=<obs> model=<obs> text=<path>
-     POLLS <id> <family> <entry> silent=<b> k=<k> impl=<n> model=<n> text=<path>
-     IMPURE <id> ...        (the implementation modified its inputs)
-     SKIP <id> <why>
-     SUMMARY cases=<n> runs=<n> ties=<n> ... *)
+   usage: sjdriver CASES.sexp *)
 open Model
 open Sexp
 open Conv
 
 let fuel = nat_of_int 100000
+let now_sec = z_of_string "1790000000"
 
 let field (name : string) (items : Sexp.t list) : Sexp.t list =
   let rec go = function
@@ -22,28 +23,694 @@ let field (name : string) (items : Sexp.t list) : Sexp.t list =
     | _ :: tl -> go tl
     | [] -> raise (Bad ("missing field " ^ name)) in
   go items
+let field_opt name items = try Some (field name items) with Bad _ -> None
 
-let now_sec = z_of_string "1790000000"
-
-exception Oracle_miss
-
-(* known finding C06-unary-exists: in existence mode (Exists, or exists() in lax
-   mode) a unary + or - that is the last step of its chain hands a non-numeric
-   operand on as if it were a result *)
+(* ---------- known-finding classifiers (mirrored by known_findings.json) ---------- *)
 let last_is_unary (c : chain) : bool =
-  match List.rev c with
-  | SUn ((UPlus | UMinus), _) :: _ -> true
-  | _ -> false
+  match List.rev c with SUn ((UPlus | UMinus), _) :: _ -> true | _ -> false
 let unary_quirk (p : path) : bool =
   last_is_unary p.p_root ||
   chain_has (function SUn (UExists, a) -> last_is_unary a | _ -> false) p.p_root
 
+let is_dt = function SDt _ -> true | _ -> false
+let is_decimal = function SDecimal _ -> true | _ -> false
+let is_arith = function SBin ((BAdd | BSub | BMul | BDiv | BMod), _, _) -> true | SUn ((UPlus | UMinus), _) -> true | SMeth MAbs -> true | _ -> false
+
+let is_container = function JArr _ | JObj _ -> true | _ -> false
+
+type run = { silent : bool; k : int; cause : string; entries : (string * (obs * int option)) list }
+
+type case = {
+  id : string; family : string; text : string; path : path; doc : json;
+  vars : (char list * json) list; vars_tag : z; next_tag : z; usetz : bool; tzoff : z;
+  unordered : bool; haskv : bool; kv : z list option;
+  retab : ((string * int * string) * bool) list; pure : bool; runs : run list;
+  group : (string * string) option;   (* group id, role *)
+}
+
+let counters = Hashtbl.create 16
+let bump name = Hashtbl.replace counters name (1 + (try Hashtbl.find counters name with Not_found -> 0))
+let count name = try Hashtbl.find counters name with Not_found -> 0
+
+let parse_case (rest : Sexp.t list) (id : string) (family : string) : case =
+  reset_tags ();
+  let text = (match field "text" rest with [S t] -> t | _ -> raise (Bad "text")) in
+  let path = path_of_sexp (List.find (function L (A "path" :: _) -> true | _ -> false) rest) in
+  let doc = (match field "doc" rest with [d] -> json_of_sexp d | _ -> raise (Bad "doc")) in
+  let vars = List.map (function L [S k; v] -> (chars k, json_of_sexp v) | _ -> raise (Bad "var")) (field "vars" rest) in
+  let vars_tag = fresh_tag () in
+  let next_tag = fresh_tag () in
+  let usetz = (match field "usetz" rest with [A b] -> b = "true" | _ -> false) in
+  let tzoff = (match field "tz" rest with [A n] -> z_of_string n | _ -> Z0) in
+  let unordered = (match field "unordered" rest with [A b] -> b = "true" | _ -> false) in
+  let haskv = chain_has is_kv path.p_root in
+  let unordered = unordered || (haskv && chain_has is_wild path.p_root) in
+  let kv = if haskv then
+      Some (List.fold_left (fun a (_, v) -> json_ints v a) (json_ints doc (chain_ints path.p_root [])) vars)
+    else None in
+  let retab = List.map (function
+      | L [S pat; A flags; S subj; A b] -> ((pat, int_of_string flags, subj), b = "true")
+      | _ -> raise (Bad "re")) (field "re" rest) in
+  let pure = (match field "pure" rest with [A b] -> b = "true" | _ -> true) in
+  let group = (match field_opt "group" rest with Some [S g; S role] -> Some (g, role) | _ -> None) in
+  let runs = List.filter_map (function
+      | L (A "run" :: A silent :: A k :: A cause :: entries) ->
+        let es = List.filter_map (function
+            | L [A name; r; A n] -> Some (name, (obs_of_sexp r, Some (int_of_string n)))
+            | L [A name; r] -> Some (name, (obs_of_sexp r, None))
+            | _ -> None) entries in
+        Some { silent = (silent = "true"); k = int_of_string k; cause; entries = es }
+      | _ -> None) (field "runs" rest) in
+  { id; family; text; path; doc; vars; vars_tag; next_tag; usetz; tzoff; unordered; haskv; kv; retab; pure; runs; group }
+
+let missed = ref false
+let lib_of (c : case) : execLib =
+  let re pat flags subj =
+    match List.assoc_opt (unchars pat, int_of_z flags, unchars subj) c.retab with
+    | Some b -> b
+    | None -> missed := true; false in
+  mk_lib (ctx_fixed c.tzoff now_sec) re members_in_order
+
+let opts_of (c : case) (r : run) : opts =
+  { o_vars = c.vars; o_vars_tag = c.vars_tag; o_silent = r.silent; o_useTZ = c.usetz;
+    o_cancel_at = (if r.k < 0 then None else Some (nat_of_int r.k)); o_next_tag = c.next_tag }
+
+let find_run (c : case) (silent : bool) (k : int) : run option =
+  List.find_opt (fun r -> r.silent = silent && r.k = k) c.runs
+let obs_in (r : run) (name : string) : obs option =
+  match List.assoc_opt name r.entries with Some (o, _) -> Some o | None -> None
+let polls_in (r : run) (name : string) : int option =
+  match List.assoc_opt name r.entries with Some (_, p) -> p | None -> None
+
+let prop_line tag (c : case) clause cls detail =
+  bump ("prop_" ^ tag);
+  Printf.printf "PROP %s %s %s clause=%s class=%s detail=%s text=%s\n" tag c.id c.family clause cls detail (qs c.text)
+
+(* ---------- T: model vs implementation ---------- *)
+let tie_leg (c : case) =
+  let lib = lib_of c in
+  List.iter (fun r ->
+      bump "runs";
+      let o = opts_of c r in
+      let model_of = function
+        | "query" -> obs_of_q (api_query lib fuel c.path c.doc o)
+        | "first" -> obs_of_f (api_first lib fuel c.path c.doc o)
+        | "exists" -> obs_of_b (api_exists lib fuel c.path c.doc o)
+        | "match" -> obs_of_b (api_match lib fuel c.path c.doc o)
+        | _ -> obs_of_b (api_eom lib fuel c.path c.doc o) in
+      List.iter (fun (entry, (impl, polls)) ->
+          bump "comparisons";
+          missed := false;
+          let m = model_of entry in
+          let comparable =
+            if not c.unordered then true
+            else (entry = "query" && not r.silent && r.k < 0
+                  && (match impl, m with ObItems _, ObItems _ -> true | _ -> false)) in
+          if comparable && not (obs_eqb c.unordered c.kv impl m) then begin
+            if !missed then bump "oracle_miss"
+            else begin
+              bump "ties";
+              Printf.printf "TIE %s %s %s silent=%b k=%d impl=%s model=%s text=%s\n"
+                c.id c.family entry r.silent r.k (string_of_obs impl) (string_of_obs m) (qs c.text)
+            end
+          end;
+          (match polls with
+           | Some n when not c.unordered ->
+             let vals = if entry = "exists" then None else Some [] in
+             (match api_polls lib fuel c.path c.doc o vals with
+              | Ret pn ->
+                let pm = int_of_nat pn in
+                if pm <> n && not !missed then begin
+                  bump "polls";
+                  Printf.printf "POLLS %s %s %s silent=%b k=%d impl=%d model=%d text=%s\n" c.id c.family entry r.silent r.k n pm (qs c.text)
+                end
+              | _ -> ())
+           | _ -> ())) r.entries) c.runs
+
+(* ---------- S: specification vs implementation ---------- *)
+let spec_obs lib (c : case) (o : opts) entry q =
+  match entry with
+  | "query" -> obs_of_q (Ret (api_spec_query lib q c.path c.doc o))
+  | "first" -> obs_of_f (Ret (api_spec_first lib q c.path c.doc o))
+  | "exists" -> obs_of_b (Ret (api_spec_exists lib q c.path c.doc o))
+  | "match" -> obs_of_b (Ret (api_spec_match lib q c.path c.doc o))
+  | _ -> obs_of_b (Ret (api_spec_eom lib q c.path c.doc o))
+
+let reads_kv_id (c : case) = c.haskv && chain_has (function SKey k -> unchars k = "id" | _ -> false) c.path.p_root
+
+let spec_leg (c : case) =
+  let lib = lib_of c in
+  List.iter (fun r ->
+      (* the specification leaves keyvalue ids abstract: a path that inspects them cannot be compared *)
+      if r.k < 0 && not (reads_kv_id c) then begin
+        let o = opts_of c r in
+        List.iter (fun (entry, (impl, _)) ->
+            let comparable =
+              if not c.unordered then true
+              else (entry = "query" && not r.silent && (match impl with ObItems _ -> true | _ -> false)) in
+            if comparable then begin
+              bump "spec_comparisons";
+              missed := false;
+              let un = c.unordered || c.haskv in
+              let eq q = obs_eqb un c.kv impl (spec_obs lib c o entry q) in
+              if not (eq quirks_ideal) then begin
+                let cls =
+                  if eq { q_skip_null = true; q_iu_swallow = false } then "C14-null-subscript"
+                  else if eq { q_skip_null = false; q_iu_swallow = true } then "C11-isunknown-hard-error"
+                  else if eq quirks_code then "C14-null-subscript+C11-isunknown-hard-error"
+                  else if unary_quirk c.path then "C06-unary-exists"
+                  else "NONE" in
+                if !missed then bump "oracle_miss"
+                else begin
+                  bump "spec_mismatches";
+                  Printf.printf "SPEC %s %s %s silent=%b class=%s impl=%s spec=%s text=%s\n"
+                    c.id c.family entry r.silent cls (string_of_obs impl)
+                    (string_of_obs (spec_obs lib c o entry quirks_ideal)) (qs c.text)
+                end
+              end
+            end) r.entries
+      end) c.runs
+
+(* ---------- property relations stated directly on the implementation's outputs ---------- *)
+let is_err = function ObErr _ -> true | _ -> false
+let err_class = function ObErr e -> Some e | _ -> None
+
+let rec json_exists (p : json -> bool) (v : json) : bool =
+  p v || (match v with
+      | JArr (_, l) -> List.exists (json_exists p) l
+      | JObj (_, l) -> List.exists (fun (_, x) -> json_exists p x) l
+      | _ -> false)
+let nonfinite = function
+  | JNum (NFlt (S754_infinity _)) | JNum (NFlt S754_nan) -> true
+  | _ -> false
+
+let rec subvalues (v : json) (acc : json list) : json list =
+  let acc = v :: acc in
+  match v with
+  | JArr (_, l) -> List.fold_left (fun a x -> subvalues x a) acc l
+  | JObj (_, l) -> List.fold_left (fun a (_, x) -> subvalues x a) acc l
+  | _ -> acc
+
+let jeq a b = obs_eqb false None (ObFirst a) (ObFirst b)
+
+let is_kv_obj = function
+  | JObj (_, [(k1, _); (k2, _); (k3, _)]) -> unchars k1 = "id" && unchars k2 = "key" && unchars k3 = "value"
+  | _ -> false
+
+(* C05: classification, finiteness, provenance, purity *)
+let check_c05 (c : case) =
+  if not c.pure then begin
+    bump "impure";
+    Printf.printf "IMPURE %s %s text=%s\n" c.id c.family (qs c.text)
+  end;
+  let inputs = lazy (List.fold_left (fun a (_, v) -> subvalues v a) (subvalues c.doc []) c.vars) in
+  List.iter (fun r ->
+      List.iter (fun (entry, (impl, _)) ->
+          (match impl with
+           | ObPanic -> prop_line "C05" c ("panic-" ^ entry) "NONE" "(panic)"
+           | ObWeird -> prop_line "C05" c ("error-with-value-" ^ entry) "NONE" "(weird)"
+           | ObErr OEInvalid ->
+             let cls = if chain_has is_dt c.path.p_root then "C05-errinvalid-datetime-compare" else "NONE" in
+             prop_line "C05" c ("errinvalid-" ^ entry) cls "(err invalid)"
+           | ObErr OEOther -> prop_line "C05" c ("unclassified-error-" ^ entry) "NONE" "(err other)"
+           | ObErr OENull when entry = "query" || entry = "first" -> prop_line "C05" c ("null-from-" ^ entry) "NONE" "(err null)"
+           | ObItems items when entry = "query" ->
+             if List.exists (json_exists nonfinite) items then begin
+               let cls = if chain_has is_decimal c.path.p_root then "C16-decimal-nan"
+                 else if chain_has is_arith c.path.p_root then "C05-float-overflow-inf" else "NONE" in
+               prop_line "C05" c "nonfinite-number" cls (string_of_obs impl)
+             end;
+             (* every returned container is a sub-value of the inputs or a keyvalue triple *)
+             List.iter (fun it ->
+                 match it with
+                 | JArr _ | JObj _ ->
+                   if not (is_kv_obj it) && not (List.exists (fun s -> jeq s it) (Lazy.force inputs)) then
+                     prop_line "C05" c "provenance" "NONE" (string_of_json it)
+                 | _ -> ()) items
+           | _ -> ())) r.entries) c.runs
+
+(* C06: the five entry points tell one story *)
+let check_c06 (c : case) =
+  let lib = lib_of c in
+  List.iter (fun r ->
+      if r.k < 0 && not c.unordered then begin
+        match obs_in r "query", obs_in r "first", obs_in r "exists", obs_in r "match", obs_in r "eom" with
+        | Some q, Some f, Some x, Some m, Some em ->
+          let eq a b = obs_eqb false c.kv a b in
+          (* First = head of Query, same error *)
+          let f_exp = (match q with
+              | ObItems (h :: _) -> ObFirst h | ObItems [] -> ObFirst JNull | other -> other) in
+          if not (eq f f_exp) then prop_line "C06" c "first-vs-query" "NONE" (string_of_obs f ^ " vs " ^ string_of_obs q);
+          (* Match = sole boolean of Query *)
+          let m_exp = (match q with
+              | ObItems [JNull] -> ObErr OENull
+              | ObItems [JBool b] -> ObBool b
+              | ObItems _ -> if r.silent then ObErr OENull else ObErr OEVerbose
+              | other -> other) in
+          if not (eq m m_exp) then prop_line "C06" c "match-vs-query" "NONE" (string_of_obs m ^ " vs " ^ string_of_obs q);
+          (* ExistsOrMatch dispatch *)
+          let em_exp = if c.path.p_pred then m else x in
+          if not (eq em em_exp) then prop_line "C06" c "eom-dispatch" "NONE" (string_of_obs em);
+          (* Query succeeds => Exists = non-empty *)
+          (match q with
+           | ObItems l ->
+             let want = ObBool (l <> []) in
+             (* a silent Query may have swallowed a failure; then Exists may legitimately be NULL *)
+             if not r.silent && not (eq x want) then
+               prop_line "C06" c "exists-vs-successful-query" (if unary_quirk c.path then "C06-unary-exists" else "NONE")
+                 (string_of_obs x ^ " vs " ^ string_of_obs q)
+           | _ -> ());
+          (* strict: Exists never hides an error Query reports *)
+          (match q with
+           | ObErr e when not c.path.p_lax && not r.silent ->
+             if not (eq x (ObErr e)) then
+               prop_line "C06" c "strict-exists-hides-error" "NONE" (string_of_obs x ^ " vs " ^ string_of_obs q)
+           | _ -> ());
+          (* Exists true => the complete evaluation yields an item (specification trace) *)
+          (match x with
+           | ObBool true when not (reads_kv_id c) ->
+             missed := false;
+             let (items, _) = api_sem_of lib quirks_code c.path c.doc (opts_of c r) in
+             if items = [] && not !missed then
+               prop_line "C06" c "exists-true-without-item" (if unary_quirk c.path then "C06-unary-exists" else "NONE") (string_of_obs x)
+           | _ -> ())
+        | _ -> ()
+      end) c.runs
+
+(* C08: WithSilent suppresses exactly the suppressible errors *)
+let check_c08 (c : case) =
+  match find_run c false (-1), find_run c true (-1) with
+  | Some v, Some s when not c.unordered ->
+    List.iter (fun (entry, (so, _)) ->
+        (match so with
+         | ObErr OEVerbose -> prop_line "C08" c ("silent-returns-suppressible-" ^ entry) "NONE" (string_of_obs so)
+         | _ -> ());
+        match obs_in v entry with
+        | Some vo ->
+          let eq a b = obs_eqb false c.kv a b in
+          (match vo with
+           | ObErr OEVerbose ->
+             (* the silent run must not fail with an error object other than NULL *)
+             (match so with
+              | ObErr OENull when entry <> "query" && entry <> "first" -> ()
+              | ObErr _ -> prop_line "C08" c ("suppressible-becomes-error-" ^ entry) "NONE" (string_of_obs vo ^ " -> " ^ string_of_obs so)
+              | _ -> ())
+           | ObErr e ->
+             (* non-suppressible: unchanged *)
+             if not (eq so vo) then
+               prop_line "C08" c ("hard-error-changed-" ^ entry) "NONE" (string_of_obs vo ^ " -> " ^ string_of_obs so)
+           | _ ->
+             (* success: identical result *)
+             if not (eq so vo) then
+               prop_line "C08" c ("success-changed-" ^ entry) "NONE" (string_of_obs vo ^ " -> " ^ string_of_obs so))
+        | None -> ()) s.entries
+  | _ -> ()
+
+(* C20: cancellation at every poll *)
+let check_c20 (c : case) =
+  match find_run c false (-1), find_run c true (-1) with
+  | Some v0, Some s0 ->
+    let base silent = if silent then s0 else v0 in
+    List.iter (fun r ->
+        if r.k >= 0 then begin
+          bump "cancel_runs";
+          let b = base r.silent in
+          List.iter (fun (entry, (o, polls)) ->
+              let ref_entry = (match entry with
+                  | "exists" -> "exists"
+                  | "eom" -> if c.path.p_pred then "query" else "exists"
+                  | _ -> "query") in
+              let total = (match polls_in b ref_entry with Some n -> n | None -> 0) in
+              if r.k < total then begin
+                (* the context is done at a poll this evaluation reaches *)
+                (match o with
+                 | ObErr OECancel -> ()
+                 | _ -> prop_line "C20" c (Printf.sprintf "cancel-at-%d-of-%d-%s-%s-%s" r.k total entry (if r.silent then "silent" else "verbose") r.cause)
+                          "NONE" (string_of_obs o));
+                (match polls with
+                 | Some n when n > r.k + 1 ->
+                   prop_line "C20" c (Printf.sprintf "polls-after-cancel-%s" entry) "NONE" (Printf.sprintf "(k %d polls %d)" r.k n)
+                 | _ -> ())
+              end else begin
+                (* never reached: the result is the uncancelled one *)
+                match obs_in b entry with
+                | Some o0 -> if not (obs_eqb c.unordered c.kv o o0) && not c.unordered then
+                    prop_line "C20" c (Printf.sprintf "unreached-cancel-changes-result-%s" entry) "NONE" (string_of_obs o)
+                | None -> ()
+              end) r.entries
+        end) c.runs
+  | _ -> ()
+
+(* C13: arithmetic against the exact specification *)
+let string_of_ares = function
+  | AInt z -> "(i " ^ string_of_z z ^ ")"
+  | AFloat f -> "(f " ^ string_of_z (f64_to_bits f) ^ ")"
+  | AErrVerbose -> "(err verbose)"
+  | ANotNumeric -> "(err verbose)"
+
+let check_c13 (c : case) =
+  let lib = lib_of c in
+  let var name = List.assoc_opt (chars name) c.vars in
+  match find_run c false (-1) with
+  | Some r ->
+    (match obs_in r "query" with
+     | Some impl ->
+       let expect =
+         (match c.path.p_root, var "x", var "y" with
+          | [SBin (op, [SVar ['x']], [SVar ['y']])], Some x, Some y when is_arith (SBin (op, [], [])) && not (is_container x) && not (is_container y) ->
+            Some (arith_spec lib op x y)
+          | [SUn (UMinus, [SVar ['x']])], Some x, _ when not (is_container x) -> Some (neg_spec lib x)
+          | [SVar ['x']; SMeth MAbs], Some x, _ when not (is_container x) -> Some (abs_spec lib x)
+          | _ -> None) in
+       (match expect with
+        | Some e ->
+          bump "c13_checked";
+          let want = (match e with
+              | AInt z -> ObItems [JNum (NInt z)]
+              | AFloat f -> ObItems [JNum (NFlt f)]
+              | AErrVerbose | ANotNumeric -> ObErr OEVerbose) in
+          if not (obs_eqb false None impl want) then begin
+            let overflow = (match impl, e with
+                | ObItems [JNum (NInt _)], AFloat _ -> true   (* an integer where the exact result does not fit *)
+                | _ -> false) in
+            prop_line "C13" c "exact-or-double" (if overflow then "C13-int64-wrap" else "NONE")
+              (string_of_obs impl ^ " expected " ^ string_of_ares e)
+          end;
+          (match impl with
+           | ObItems items when List.exists (json_exists nonfinite) items ->
+             prop_line "C13" c "nonfinite-result" "C05-float-overflow-inf" (string_of_obs impl)
+           | _ -> ())
+        | None -> ())
+     | None -> ())
+  | None -> ()
+
+(* C16: ranges of the converters, .string() round trip, keyvalue ids *)
+let check_c16 (c : case) =
+  match find_run c false (-1), find_run c true (-1) with
+  | Some r, Some rs ->
+    (match obs_in r "query" with
+     | Some impl ->
+       let last = (match List.rev c.path.p_root with s :: _ -> Some s | [] -> None) in
+       let items = (match impl with ObItems l -> l | _ -> []) in
+       let in_range lo hi z = Z.compare z (z_of_string lo) <> Lt && Z.compare z (z_of_string hi) <> Gt in
+       List.iter (fun it ->
+           match last, it with
+           | Some (SMeth MInteger), JNum (NInt z) ->
+             if not (in_range "-2147483648" "2147483647" z) then prop_line "C16" c "integer-out-of-int32" "NONE" (string_of_json it)
+           | Some (SMeth MInteger), _ -> prop_line "C16" c "integer-returns-non-integer" "NONE" (string_of_json it)
+           | Some (SMeth MBigInt), JNum (NInt z) ->
+             if not (in_range "-9223372036854775808" "9223372036854775807" z) then prop_line "C16" c "bigint-out-of-int64" "NONE" (string_of_json it)
+           | Some (SMeth MBigInt), _ -> prop_line "C16" c "bigint-returns-non-integer" "NONE" (string_of_json it)
+           | Some (SMeth (MDouble | MNumber)), JNum (NFlt f) ->
+             if nonfinite it then prop_line "C16" c "double-nonfinite" "NONE" (string_of_json it)
+           | Some (SMeth (MDouble | MNumber)), _ -> prop_line "C16" c "double-returns-non-double" "NONE" (string_of_json it)
+           | Some (SDecimal (Some p, sc)), JNum (NFlt f) ->
+             if nonfinite it then prop_line "C16" c "decimal-nonfinite" "C16-decimal-nan" (string_of_json it)
+             else begin
+               (* at most p - s digits before the decimal point *)
+               let s = (match sc with Some s -> int_of_z s | None -> 0) in
+               let digits = int_of_z p - s in
+               let limit = f64_pow10 (z_of_int digits) in
+               (match f64_cmp (f64_abs f) limit with
+                | Some Lt -> ()
+                | _ -> if digits >= 0 && digits < 300 then
+                    prop_line "C16" c "decimal-exceeds-precision" "C16-decimal-zero-digits" (string_of_json it))
+             end
+           | Some (SMeth MBoolean), JBool _ -> ()
+           | Some (SMeth MBoolean), _ -> prop_line "C16" c "boolean-returns-non-boolean" "NONE" (string_of_json it)
+           | Some (SMeth MString), JStr _ -> ()
+           | Some (SMeth MString), _ -> prop_line "C16" c "string-returns-non-string" "NONE" (string_of_json it)
+           | Some (SMeth MType), JStr _ -> ()
+           | Some (SMeth MType), _ -> prop_line "C16" c "type-returns-non-string" "NONE" (string_of_json it)
+           | _ -> ()) items;
+       (* "$x.m() == $x.string().m()" must not be false *)
+       (match c.path.p_root, List.assoc_opt ['x'] c.vars with
+        | [SBin (BEq, (SVar ['x'] :: [m1]), (SVar ['x'] :: SMeth MString :: [m2]))], Some x when m1 = m2 ->
+          (* the matching method for the type of x *)
+          let matching = (match x, m1 with
+              | JNum (NFlt _), SMeth (MDouble | MNumber) -> true
+              | JNum (NInt _), SMeth (MBigInt | MInteger | MDouble | MNumber) -> true
+              | JNum (NJs _), SMeth (MBigInt | MInteger | MDouble | MNumber | MBoolean) -> true
+              | JBool _, SMeth MBoolean -> true
+              | JStr _, _ -> true
+              | _ -> false) in
+          (match impl with
+           | ObItems [JBool false] when matching -> prop_line "C16" c "string-roundtrip" "NONE" (string_of_obs impl)
+           | _ -> ())
+        | _ -> ());
+       (* keyvalue ids: equal within an object, stable over repeated executions *)
+       if c.haskv && not c.unordered then begin
+         (match obs_in rs "query", impl with
+          | Some (ObItems l2), ObItems l1 ->
+            if not (obs_eqb false None (ObItems l1) (ObItems l2)) then begin
+              let nkv = List.length (List.filter is_kv c.path.p_root) in
+              prop_line "C16" c "keyvalue-ids-unstable" (if nkv >= 2 then "C16-keyvalue-generated-ids" else "NONE")
+                (string_of_obs (ObItems l1) ^ " vs " ^ string_of_obs (ObItems l2))
+            end
+          | _ -> ())
+       end
+     | None -> ())
+  | _ -> ()
+
+(* ---------- C12: order axioms over the table of "$x OP $y" results ---------- *)
+let cmp_table : (string * string * string, (string * int) ) Hashtbl.t = Hashtbl.create 4096
+(* key (mode, x, y) -> per-op outcome stored separately *)
+let cmp_cells : (string, int) Hashtbl.t = Hashtbl.create 65536   (* "mode|x|y|op" -> 0 F,1 T,2 U,3 E *)
+let cmp_vals : (string, json) Hashtbl.t = Hashtbl.create 128
+let cmp_case : (string, case) Hashtbl.t = Hashtbl.create 128
+
+let opname = function BEq -> "eq" | BNe -> "ne" | BLt -> "lt" | BGt -> "gt" | BLe -> "le" | BGe -> "ge" | _ -> "?"
+
+let collect_c12 (c : case) =
+  match c.path.p_root, List.assoc_opt ['x'] c.vars, List.assoc_opt ['y'] c.vars, find_run c false (-1) with
+  | [SBin ((BEq | BNe | BLt | BGt | BLe | BGe) as op, [SVar ['x']], [SVar ['y']])], Some x, Some y, Some r ->
+    (match obs_in r "query" with
+     | Some impl ->
+       let out = (match impl with
+           | ObItems [JBool false] -> 0 | ObItems [JBool true] -> 1 | ObItems [JNull] -> 2 | _ -> 3) in
+       let mode = if c.path.p_lax then "lax" else "strict" in
+       let sx = string_of_json x and sy = string_of_json y in
+       Hashtbl.replace cmp_vals sx x; Hashtbl.replace cmp_vals sy y;
+       Hashtbl.replace cmp_cells (String.concat "|" [mode; sx; sy; opname op]) out;
+       Hashtbl.replace cmp_case (String.concat "|" [mode; sx; sy]) c
+     | None -> ())
+  | _ -> ()
+
+(* an integer-valued number of magnitude above 2^53 in some representation: comparison with another representation goes through float64 *)
+let big_number lib (v : json) : bool =
+  match v with
+  | JNum (NInt z) -> Z.compare (Z.abs z) (z_of_string "9007199254740992") = Gt
+  | JNum (NFlt f) -> (match f64_cmp (f64_abs f) (f64_of_Z (z_of_string "9007199254740992")) with Some Lt -> false | _ -> true)
+  | JNum (NJs _) -> true
+  | _ -> false
+
+let finish_c12 () =
+  let lib = mk_lib (ctx_fixed Z0 now_sec) (fun _ _ _ -> false) members_in_order in
+  let vals = Hashtbl.fold (fun k _ acc -> k :: acc) cmp_vals [] in
+  let cell mode x y op = Hashtbl.find_opt cmp_cells (String.concat "|" [mode; x; y; op]) in
+  let report mode x y clause cls detail =
+    match Hashtbl.find_opt cmp_case (String.concat "|" [mode; x; y]) with
+    | Some c -> prop_line "C12" c clause cls detail
+    | None -> () in
+  let cls_of xs = if List.exists (fun x -> big_number lib (Hashtbl.find cmp_vals x)) xs then "C12-mixed-number-precision" else "NONE" in
+  List.iter (fun mode ->
+      (* in lax mode an array operand is unwrapped into a sequence: the order axioms are about items *)
+      let is_arr x = (match Hashtbl.find cmp_vals x with JArr _ -> true | _ -> false) in
+      let vals = if mode = "lax" then List.filter (fun x -> not (is_arr x)) vals else vals in
+      List.iter (fun x ->
+          List.iter (fun y ->
+              match cell mode x y "eq", cell mode x y "ne", cell mode x y "lt", cell mode x y "gt", cell mode x y "le", cell mode x y "ge" with
+              | Some eq, Some ne, Some lt, Some gt, Some le, Some ge ->
+                bump "c12_pairs";
+                let all = [eq; ne; lt; gt; le; ge] in
+                if List.mem 3 all then report mode x y "comparison-error" "NONE" (Printf.sprintf "%d%d%d%d%d%d" eq ne lt gt le ge)
+                else if List.mem 2 all then begin
+                  (* unknown: then every operator is unknown (incomparable), except the null rule which never yields unknown *)
+                  if not (List.for_all (fun v -> v = 2) all) then
+                    report mode x y "partly-unknown" "NONE" (Printf.sprintf "%d%d%d%d%d%d" eq ne lt gt le ge)
+                end else begin
+                  let vx = Hashtbl.find cmp_vals x and vy = Hashtbl.find cmp_vals y in
+                  let nullrule = (vx = JNull) <> (vy = JNull) in
+                  if nullrule then begin
+                    if not (eq = 0 && ne = 1 && lt = 0 && gt = 0 && le = 0 && ge = 0) then
+                      report mode x y "null-rule" "NONE" (Printf.sprintf "%d%d%d%d%d%d" eq ne lt gt le ge)
+                  end else begin
+                    if lt + eq + gt <> 1 then report mode x y "trichotomy" (cls_of [x; y]) (Printf.sprintf "lt=%d eq=%d gt=%d" lt eq gt);
+                    if le <> (max lt eq) then report mode x y "le-is-lt-or-eq" (cls_of [x; y]) "";
+                    if ge <> (max gt eq) then report mode x y "ge-is-gt-or-eq" (cls_of [x; y]) "";
+                    if ne <> 1 - eq then report mode x y "ne-is-not-eq" (cls_of [x; y]) "";
+                    (match cell mode y x "gt", cell mode y x "eq" with
+                     | Some gt', Some eq' ->
+                       if gt' <> lt then report mode x y "duality" (cls_of [x; y]) "x<y vs y>x";
+                       if eq' <> eq then report mode x y "eq-symmetric" (cls_of [x; y]) ""
+                     | _ -> ())
+                  end
+                end;
+                if (is_container (Hashtbl.find cmp_vals x) || is_container (Hashtbl.find cmp_vals y))
+                   && Hashtbl.find cmp_vals x <> JNull && Hashtbl.find cmp_vals y <> JNull then
+                  if not (List.for_all (fun v -> v = 2) all) then
+                    report mode x y "container-comparable" "NONE" ""
+              | _ -> ()) vals) vals;
+      (* transitivity over triples of scalars *)
+      let scal = List.filter (fun x -> not (is_container (Hashtbl.find cmp_vals x))) vals in
+      List.iter (fun x ->
+          List.iter (fun y ->
+              match cell mode x y "lt", cell mode x y "eq" with
+              | Some ltxy, Some eqxy when ltxy = 1 || eqxy = 1 ->
+                List.iter (fun z ->
+                    match cell mode y z "lt", cell mode y z "eq", cell mode x z "lt", cell mode x z "eq" with
+                    | Some ltyz, Some eqyz, Some ltxz, Some eqxz ->
+                      bump "c12_triples";
+                      if ltxy = 1 && ltyz = 1 && ltxz <> 1 then report mode x z "lt-transitive" (cls_of [x; y; z]) ("via " ^ y);
+                      if eqxy = 1 && eqyz = 1 && eqxz <> 1 then report mode x z "eq-transitive" (cls_of [x; y; z]) ("via " ^ y);
+                      if ltxy = 1 && eqyz = 1 && ltxz <> 1 then report mode x z "lt-eq-transitive" (cls_of [x; y; z]) ("via " ^ y);
+                      if eqxy = 1 && ltyz = 1 && ltxz <> 1 then report mode x z "eq-lt-transitive" (cls_of [x; y; z]) ("via " ^ y)
+                    | _ -> ()) scal
+              | _ -> ()) scal) scal) ["lax"; "strict"]
+
+(* ---------- groups: relations between several cases (C09, C10, C11) ---------- *)
+let groups : (string, (string * case) list) Hashtbl.t = Hashtbl.create 256
+let group_order : string list ref = ref []
+
+let outcome4 (c : case) : int =   (* 0 F, 1 T, 2 U, 3 hard error, 4 other *)
+  match find_run c false (-1) with
+  | Some r -> (match obs_in r "query" with
+      | Some (ObItems [JBool false]) -> 0
+      | Some (ObItems [JBool true]) -> 1
+      | Some (ObItems [JNull]) -> 2
+      | Some (ObErr (OEExec | OECancel)) -> 3
+      | _ -> 4)
+  | None -> 4
+
+let k_not = function 0 -> 1 | 1 -> 0 | x -> x
+let k_and a b = if a = 3 then 3 else if a = 0 then 0 else if b = 3 then 3 else if b = 0 then 0 else if a = 2 || b = 2 then 2 else 1
+let k_or a b = if a = 3 then 3 else if a = 1 then 1 else if b = 3 then 3 else if b = 1 then 1 else if a = 2 || b = 2 then 2 else 0
+let k_isunknown a = if a = 3 then 3 else if a = 2 then 1 else 0
+
+let query_verbose (c : case) : obs option =
+  match find_run c false (-1) with Some r -> obs_in r "query" | None -> None
+
+let finish_group (g : string) (members : (string * case) list) =
+  let get role = List.assoc_opt role members in
+  match members with
+  | (_, c0) :: _ when c0.family = "group11" ->
+    (match get "p", get "q" with
+     | Some p, Some q ->
+       let op = outcome4 p and oq = outcome4 q in
+       if op <> 4 && oq <> 4 then begin
+         bump "c11_groups";
+         let check role expected cls =
+           match get role with
+           | Some c ->
+             let got = outcome4 c in
+             if got <> expected then
+               prop_line "C11" c ("kleene-" ^ role) (if op = 3 || oq = 3 then cls else "NONE")
+                 (Printf.sprintf "p=%d q=%d expected=%d got=%d" op oq expected got)
+           | None -> () in
+         check "and" (k_and op oq) "NONE";
+         check "and_rev" (k_and oq op) "NONE";
+         check "or" (k_or op oq) "NONE";
+         check "or_rev" (k_or oq op) "NONE";
+         check "not_p" (k_not op) "NONE";
+         check "notnot_p" (k_not (k_not op)) "NONE";
+         check "isunknown_p" (k_isunknown op) "C11-isunknown-hard-error";
+         check "isunknown_isunknown_p" (k_isunknown (k_isunknown op)) "C11-isunknown-hard-error";
+         check "nand" (k_not (k_and op oq)) "NONE";
+         check "dm_or" (k_or (k_not op) (k_not oq)) "NONE";
+         check "nor" (k_not (k_or op oq)) "NONE";
+         check "dm_and" (k_and (k_not op) (k_not oq)) "NONE";
+         (* commutativity in value when neither operand is a hard error *)
+         (match get "and", get "and_rev", get "or", get "or_rev" with
+          | Some a, Some ar, Some o, Some orr when op <> 3 && oq <> 3 ->
+            if outcome4 a <> outcome4 ar then prop_line "C11" a "and-commutes" "NONE" "";
+            if outcome4 o <> outcome4 orr then prop_line "C11" o "or-commutes" "NONE" ""
+          | _ -> ());
+         (* the same connectives inside a filter keep the item exactly when true *)
+         List.iter (fun (role, c) ->
+             (* in lax mode "$ ? (C)" on an array document filters its elements, not the document *)
+             let doc_unwrapped = (match c.doc with JArr _ -> c.path.p_lax | _ -> false) in
+             if String.length role > 7 && String.sub role 0 7 = "filter:" && not doc_unwrapped then begin
+               let base = String.sub role 7 (String.length role - 7) in
+               match get base, query_verbose c with
+               | Some b, Some (ObItems items) ->
+                 let ob = outcome4 b in
+                 if ob <> 3 && ob <> 4 && ((ob = 1) <> (items <> [])) then
+                   prop_line "C11" c ("filter-vs-predicate-" ^ base) "NONE" (Printf.sprintf "predicate=%d kept=%b" ob (items <> []))
+               | Some b, Some (ObErr _) ->
+                 if outcome4 b <> 3 then prop_line "C11" c ("filter-errors-" ^ base) "NONE" ""
+               | _ -> ()
+             end) members
+       end
+     | _ -> ())
+  | (_, c0) :: _ when c0.family = "group9" ->
+    (* PS = concatenation over the items of P of ($ S on the item), failing where the first fails *)
+    (match get "PS", get "P" with
+     | Some ps, Some p ->
+       (match query_verbose ps, query_verbose p with
+        | Some got, Some pres ->
+          let pitems, pfail = (match pres with ObItems l -> l, None | other -> [], Some other) in
+          (* when P fails verbosely we cannot see its items before the failure; use the silent run for suppressible failures *)
+          let pitems = (match pfail, find_run p true (-1) with
+              | Some (ObErr OEVerbose), Some r -> (match obs_in r "query" with Some (ObItems l) -> l | _ -> [])
+              | _ -> pitems) in
+          let n = List.length pitems in
+          let rec go i acc =
+            if i >= n then (match pfail with None -> ObItems (List.rev acc) | Some f -> f)
+            else match get (Printf.sprintf "S@%d" i) with
+              | Some si -> (match query_verbose si with
+                  | Some (ObItems l) -> go (i + 1) (List.rev_append l acc)
+                  | Some other -> other
+                  | None -> ObWeird)
+              | None -> ObWeird in
+          let want = go 0 [] in
+          (match pfail with
+           | Some (ObErr (OEExec | OECancel | OEInvalid | OEOther | OENull)) | Some ObPanic | Some ObWeird -> ()   (* items before a hard failure are not observable *)
+           | _ ->
+             if want <> ObWeird then begin
+               bump "c09_groups";
+               if not (obs_eqb (ps.unordered || p.unordered) ps.kv got want) then
+                 prop_line "C09" ps "composition" "NONE" (string_of_obs got ^ " vs " ^ string_of_obs want)
+             end)
+        | _ -> ())
+     | _ -> ())
+  | (_, c0) :: _ when c0.family = "group10" ->
+    (* PF keeps exactly the candidates whose predicate check is [true], in order *)
+    (match get "PF", get "P" with
+     | Some pf, Some p ->
+       (match query_verbose pf, query_verbose p with
+        | Some got, Some (ObItems pitems) ->
+          let cands = if pf.path.p_lax then List.concat_map (function JArr (_, es) -> es | x -> [x]) pitems else pitems in
+          let n = List.length cands in
+          let rec go i acc =
+            if i >= n then ObItems (List.rev acc)
+            else match get (Printf.sprintf "C@%d" i) with
+              | Some ci -> (match query_verbose ci with
+                  | Some (ObItems [JBool true]) -> go (i + 1) (List.nth cands i :: acc)
+                  | Some (ObItems [JBool false]) | Some (ObItems [JNull]) -> go (i + 1) acc
+                  | Some (ObErr e) -> ObErr e
+                  | _ -> ObWeird)
+              | None -> ObWeird in
+          let want = go 0 [] in
+          if want <> ObWeird then begin
+            bump "c10_groups";
+            if not (obs_eqb (pf.unordered || p.unordered) pf.kv got want) then
+              prop_line "C10" pf "filter-keeps-exactly-true" "NONE" (string_of_obs got ^ " vs " ^ string_of_obs want)
+          end
+        | _ -> ())
+     | _ -> ())
+  | _ -> ()
+
+let note_group (c : case) =
+  match c.group with
+  | Some (g, role) ->
+    if not (Hashtbl.mem groups g) then group_order := g :: !group_order;
+    Hashtbl.replace groups g ((role, c) :: (try Hashtbl.find groups g with Not_found -> []))
+  | None -> ()
+
+(* ---------- main ---------- *)
 let () =
   let file = Sys.argv.(1) in
   let ic = open_in file in
-  let ncases = ref 0 and nruns = ref 0 and nties = ref 0 and npolls = ref 0
-  and nskip = ref 0 and nimpure = ref 0 and nmiss = ref 0 and ncmp = ref 0
-  and nspec = ref 0 and nspecbad = ref 0 and ndistinct = ref 0 in
   let seen : (string, unit) Hashtbl.t = Hashtbl.create 4096 in
   (try
      while true do
@@ -51,133 +718,42 @@ let () =
        if String.length line > 0 then begin
          match Sexp.parse line with
          | L (A "case" :: A id :: A family :: rest) ->
-           incr ncases;
+           bump "cases";
            (try
-              reset_tags ();
-              let text = (match field "text" rest with [S t] -> t | _ -> raise (Bad "text")) in
-              let path = (match List.find (function L (A "path" :: _) -> true | _ -> false) rest with p -> path_of_sexp p) in
-              let doc = (match field "doc" rest with [d] -> json_of_sexp d | _ -> raise (Bad "doc")) in
-              let vars = List.map (function L [S k; v] -> (chars k, json_of_sexp v) | _ -> raise (Bad "var")) (field "vars" rest) in
-              let vars_tag = fresh_tag () in
-              let next_tag = fresh_tag () in
-              let usetz = (match field "usetz" rest with [A b] -> b = "true" | _ -> false) in
-              let tzoff = (match field "tz" rest with [A n] -> z_of_string n | _ -> Z0) in
-              let unordered = (match field "unordered" rest with [A b] -> b = "true" | _ -> false) in
-              let haskv = chain_has is_kv path.p_root in
-              let unordered = unordered || (haskv && chain_has is_wild path.p_root) in
-              let kv = if haskv then
-                  Some (List.fold_left (fun a (_, v) -> json_ints v a) (json_ints doc (chain_ints path.p_root [])) vars)
-                else None in
-              let retab = List.map (function
-                  | L [S pat; A flags; S subj; A b] -> ((pat, int_of_string flags, subj), b = "true")
-                  | _ -> raise (Bad "re")) (field "re" rest) in
-              let missed = ref false in
-              let re pat flags subj =
-                match List.assoc_opt (unchars pat, int_of_z flags, unchars subj) retab with
-                | Some b -> b
-                | None -> missed := true; false in
-              let lib = mk_lib (ctx_fixed tzoff now_sec) re members_in_order in
-              let pure = (match field "pure" rest with [A b] -> b = "true" | _ -> true) in
+              let c = parse_case rest id family in
               (* distinct and non-trivial: new inputs whose evaluation polled the context at least
                  twice (went beyond the first step) or returned a classified error *)
-              let key = Digest.string (String.concat "\000" [text; Sexp.to_string (L (field "doc" rest)); Sexp.to_string (L (field "vars" rest));
-                                                             Sexp.to_string (L (field "usetz" rest)); Sexp.to_string (L (field "tz" rest))]) in
+              let key = Digest.string (String.concat "\000" [c.text; Sexp.to_string (L (field "doc" rest)); Sexp.to_string (L (field "vars" rest));
+                                                             string_of_bool c.usetz; string_of_z c.tzoff]) in
               if not (Hashtbl.mem seen key) then begin
                 Hashtbl.add seen key ();
-                let nontrivial = List.exists (function
-                    | L (A "run" :: _ :: _ :: _ :: entries) ->
-                      List.exists (function
-                          | L [A "query"; r; A n] -> int_of_string n >= 2 || (match r with L (A "err" :: _) -> true | _ -> false)
-                          | _ -> false) entries
-                    | _ -> false) (field "runs" rest) in
-                if nontrivial then incr ndistinct
+                let nontrivial = List.exists (fun r ->
+                    match List.assoc_opt "query" r.entries with
+                    | Some (o, Some n) -> n >= 2 || is_err o
+                    | _ -> false) c.runs in
+                if nontrivial then bump "distinct_nontrivial"
               end;
-              if not pure then begin incr nimpure; Printf.printf "IMPURE %s %s text=%s\n" id family (qs text) end;
-              List.iter (function
-                  | L (A "run" :: A silent :: A k :: A _cause :: entries) ->
-                    incr nruns;
-                    let silent_b = (silent = "true") in
-                    let kk = int_of_string k in
-                    let o = { o_vars = vars; o_vars_tag = vars_tag; o_silent = silent_b; o_useTZ = usetz;
-                              o_cancel_at = (if kk < 0 then None else Some (nat_of_int kk)); o_next_tag = next_tag } in
-                    let spec_obs entry q =
-                      match entry with
-                      | "query" -> obs_of_q (Ret (api_spec_query lib q path doc o))
-                      | "first" -> obs_of_f (Ret (api_spec_first lib q path doc o))
-                      | "exists" -> obs_of_b (Ret (api_spec_exists lib q path doc o))
-                      | "match" -> obs_of_b (Ret (api_spec_match lib q path doc o))
-                      | _ -> obs_of_b (Ret (api_spec_eom lib q path doc o)) in
-                    let check_spec entry impl =
-                      if kk < 0 then begin
-                        let comparable =
-                          if not unordered then true
-                          else (entry = "query" && not silent_b
-                                && (match impl with ObItems _ -> true | _ -> false)) in
-                        let un = unordered || haskv in
-                        let eq q = obs_eqb un kv impl (spec_obs entry q) in
-                        if comparable then begin
-                          incr nspec;
-                          if not (eq quirks_ideal) then begin
-                            let cls =
-                              if eq { q_skip_null = true; q_iu_swallow = false } then "C14-null-subscript"
-                              else if eq { q_skip_null = false; q_iu_swallow = true } then "C11-isunknown-hard-error"
-                              else if eq quirks_code then "C14-null-subscript+C11-isunknown-hard-error"
-                              else if unary_quirk path then "C06-unary-exists"
-                              else "NONE" in
-                            if !missed then incr nmiss
-                            else begin
-                              incr nspecbad;
-                              Printf.printf "SPEC %s %s %s silent=%b class=%s impl=%s spec=%s text=%s\n"
-                                id family entry silent_b cls (string_of_obs impl)
-                                (string_of_obs (spec_obs entry quirks_ideal)) (qs text)
-                            end
-                          end
-                        end
-                      end in
-                    let check entry impl_s model_obs =
-                      let impl = obs_of_sexp impl_s in
-                      check_spec entry impl;
-                      incr ncmp;
-                      (* unordered cases: only successful verbose-independent Query results are comparable *)
-                      let comparable =
-                        if not unordered then true
-                        else (entry = "query" && not silent_b && kk < 0
-                              && (match impl, model_obs with ObItems _, ObItems _ -> true | _ -> false)) in
-                      if comparable && not (obs_eqb unordered kv impl model_obs) then begin
-                        if !missed then incr nmiss
-                        else begin
-                          incr nties;
-                          Printf.printf "TIE %s %s %s silent=%b k=%d impl=%s model=%s text=%s\n"
-                            id family entry silent_b kk (string_of_obs impl) (string_of_obs model_obs) (qs text)
-                        end
-                      end in
-                    let check_polls entry impl_n vals =
-                      if not unordered then
-                        match api_polls lib fuel path doc o vals with
-                        | Ret n ->
-                          let m = int_of_nat n in
-                          if m <> impl_n && not !missed then begin
-                            incr npolls;
-                            Printf.printf "POLLS %s %s %s silent=%b k=%d impl=%d model=%d text=%s\n" id family entry silent_b kk impl_n m (qs text)
-                          end
-                        | _ -> () in
-                    List.iter (function
-                        | L [A "query"; r; A n] ->
-                          check "query" r (obs_of_q (api_query lib fuel path doc o));
-                          check_polls "query" (int_of_string n) (Some [])
-                        | L [A "first"; r] -> check "first" r (obs_of_f (api_first lib fuel path doc o))
-                        | L [A "exists"; r; A n] ->
-                          check "exists" r (obs_of_b (api_exists lib fuel path doc o));
-                          check_polls "exists" (int_of_string n) None
-                        | L [A "match"; r] -> check "match" r (obs_of_b (api_match lib fuel path doc o))
-                        | L [A "eom"; r] -> check "eom" r (obs_of_b (api_eom lib fuel path doc o))
-                        | _ -> ()) entries
-                  | _ -> ()) (field "runs" rest)
-            with Bad why -> incr nskip; Printf.printf "SKIP %s %s\n" id (qs why))
+              tie_leg c;
+              spec_leg c;
+              check_c05 c;
+              check_c06 c;
+              check_c08 c;
+              if c.family = "cancel" || List.exists (fun r -> r.k >= 0) c.runs then check_c20 c;
+              check_c13 c;
+              check_c16 c;
+              collect_c12 c;
+              note_group c
+            with Bad why -> bump "skipped"; Printf.printf "SKIP %s %s\n" id (qs why))
          | _ -> ()
        end
      done
    with End_of_file -> ());
-  Printf.printf "STAT distinct_nontrivial n=%d\n" !ndistinct;
+  finish_c12 ();
+  List.iter (fun g -> finish_group g (List.rev (Hashtbl.find groups g))) (List.rev !group_order);
+  Printf.printf "STAT distinct_nontrivial n=%d\n" (count "distinct_nontrivial");
+  List.iter (fun name -> if count name > 0 then Printf.printf "STAT %s n=%d\n" name (count name))
+    ["c12_pairs"; "c12_triples"; "c13_checked"; "c11_groups"; "c09_groups"; "c10_groups"; "cancel_runs";
+     "prop_C05"; "prop_C06"; "prop_C08"; "prop_C09"; "prop_C10"; "prop_C11"; "prop_C12"; "prop_C13"; "prop_C16"; "prop_C20"];
   Printf.printf "SUMMARY cases=%d runs=%d comparisons=%d ties=%d polls=%d impure=%d skipped=%d oracle_miss=%d spec_comparisons=%d spec_mismatches=%d\n"
-    !ncases !nruns !ncmp !nties !npolls !nimpure !nskip !nmiss !nspec !nspecbad
+    (count "cases") (count "runs") (count "comparisons") (count "ties") (count "polls") (count "impure") (count "skipped")
+    (count "oracle_miss") (count "spec_comparisons") (count "spec_mismatches")
